@@ -394,6 +394,16 @@ impl<Writer> MuxerBuilder<Writer> {
             }
         });
 
+        // dOps stores OutputChannelCount in a single byte.
+        if let Some(audio) = &audio_track {
+            if audio.codec == AudioCodec::Opus && audio.channels > u16::from(u8::MAX) {
+                return Err(MuxerError::Io(std::io::Error::new(
+                    std::io::ErrorKind::InvalidInput,
+                    "Opus supports at most 255 channels",
+                )));
+            }
+        }
+
         let mut writer = Mp4Writer::new(self.writer, video_track.codec);
         if let Some(audio) = &audio_track {
             writer.enable_audio(Mp4AudioTrack {
